@@ -78,7 +78,7 @@ Definition prop_body (i : body_in) (tab : list (bytes * bytes)) (registered : bo
                 | _ => false                 (* nothing to send, yet no error *)
                 end
     | KReader => match bi_payload i with
-                 | PReader c | PReadCloser c => bytes_eqb c (o_sent o) && opt_eqb bytes_eqb (Some (bi_media i)) (o_ct o)
+                 | PReader c | PReadCloser c | PBuffer c => bytes_eqb c (o_sent o) && opt_eqb bytes_eqb (Some (bi_media i)) (o_ct o)
                  | _ => false
                  end
     | KUrlencoded => match o_query o with
